@@ -33,7 +33,94 @@ def lowerer_bodies(F):
     return [b for b in F.bodies_in(["src/mir/lower.rs", "src/mir/lower/match_expr.rs"]) if b.mir and "Lowerer" in b.path]
 
 
-def depth_analysis(b):
+_SUMM = {}
+
+
+def _by_ref(b):
+    """Does the method work on the caller's lowerer (self by reference)? A method that consumes the lowerer
+    (fn constant(mut self)) cannot change the frame stack of its caller."""
+    ls = b.mir.get("locals") or []
+    return len(ls) < 2 or ls[1].get("ty", "&").startswith("&")
+
+
+def frame_summaries(F):
+    """Net frame effect of every Lowerer method (set of depths at return relative to entry), callee effects applied;
+    fixpoint from the optimistic assumption 'balanced'. A helper that only pops (or only pushes) a frame thus counts
+    at its call sites."""
+    key = id(F)
+    if key in _SUMM:
+        return _SUMM[key]
+    bodies = lowerer_bodies(F)
+    by = {b.path: b for b in bodies}
+    summ = {b.path: {0} for b in bodies}
+    edges = {b.path: sorted({mir.callee(t) for _, t in mir.calls(b) if mir.callee(t) in by and mir.callee(t) != b.path}) for b in bodies}
+    # Tarjan SCCs; they come out callees-first
+    index, low, onst, st, sccs = {}, {}, set(), [], []
+
+    def strong(v):
+        work = [(v, 0)]
+        while work:
+            v, i = work.pop()
+            if i == 0:
+                index[v] = low[v] = len(index)
+                st.append(v)
+                onst.add(v)
+            rec = False
+            for j in range(i, len(edges[v])):
+                w = edges[v][j]
+                if w not in index:
+                    work.append((v, j + 1))
+                    work.append((w, 0))
+                    rec = True
+                    break
+                if w in onst:
+                    low[v] = min(low[v], index[w])
+            if rec:
+                continue
+            if low[v] == index[v]:
+                comp = []
+                while True:
+                    w = st.pop()
+                    onst.discard(w)
+                    comp.append(w)
+                    if w == v:
+                        break
+                sccs.append(comp)
+            if work:
+                u = work[-1][0]
+                low[u] = min(low[u], low[v])
+
+    for p in sorted(by):
+        if p not in index:
+            strong(p)
+
+    def ret(p):
+        _, rets = depth_analysis(by[p], summ)
+        ds = set()
+        for _bi, d in rets:
+            ds |= d
+        return ds or {0}
+
+    for comp in sccs:
+        if len(comp) == 1:
+            summ[comp[0]] = ret(comp[0]) if _by_ref(by[comp[0]]) else {0}      # exact: all callees are final
+            continue
+        # mutually recursive methods: hypothesis 'balanced', verified by F1; only a consistent effect is adopted
+        for _ in range(4):
+            ch = False
+            for p in sorted(comp):
+                ds = ret(p)
+                if len(ds) == 1 and ds != summ[p]:
+                    summ[p] = ds
+                    ch = True
+            if not ch:
+                break
+    _SUMM.clear()
+    _SUMM[key] = summ
+    return summ
+
+
+def depth_analysis(b, summ=None):
     """Forward dataflow of frame depth; returns (depth_in: dict bb->set of depths, returns: list of (bb, depths))."""
     din = {0: {0}}
     work = [0]
@@ -49,6 +136,10 @@ def depth_analysis(b):
                 cur = {d + 1 for d in cur}
             elif is_frame_op(t, "pop"):
                 cur = {d - 1 for d in cur}
+            elif summ is not None:
+                e = summ.get(mir.callee(t))
+                if e and e != {0} and mir.callee(t) != b.path:
+                    cur = {d + x for d in cur for x in e}
         cur = {d for d in cur if -4 <= d <= 6}
         for s in mir.succs(blk):
             old = din.get(s, set())
@@ -68,22 +159,49 @@ F1_EXCEPT = {"mir::lower::Lowerer::<'r>::constant": 1}
 
 def rule_f1(F):
     r = RuleResult("C03.F1", "frame pushes and pops on stack_slots are balanced on every path of every lowering method", floor=8)
-    for b in lowerer_bodies(F):
+    summ = frame_summaries(F)
+    bodies = lowerer_bodies(F)
+    info = {}
+    for b in bodies:
         npush = sum(1 for _, t in mir.calls(b) if is_frame_op(t, "push"))
         npop = sum(1 for _, t in mir.calls(b) if is_frame_op(t, "pop"))
-        if npush == 0 and npop == 0:
+        eff = [mir.callee(t) for _, t in mir.calls(b) if summ.get(mir.callee(t), {0}) != {0} and mir.callee(t) != b.path]
+        if npush == 0 and npop == 0 and not eff:
             continue
-        din, rets = depth_analysis(b)
-        want = F1_EXCEPT.get(b.path, 0)
-        r.inst(b.path, {"fn": b.path, "frame_pushes": npush, "frame_pops": npop, "depth_at_return": sorted({d for _, ds in rets for d in ds}), "expected": want})
-        for bi, ds in rets:
-            if ds != {want}:
-                r.bad(b.path, "frame balance", relfile(b.file), b.line,
-                      "on some path the method returns with frame depth %s (expected %d): a frame is leaked (its variables are never dropped) or a foreign frame is popped" % (sorted(ds), want))
-                break
+        din, rets = depth_analysis(b, summ)
+        info[b.path] = (b, npush, npop, eff, din, rets)
+    # a pure frame helper: only pops or only pushes (directly), consistent net effect; acceptable iff every caller balances with it
+    helpers = {}
+    for p, (b, npush, npop, eff, din, rets) in info.items():
+        ds = {d for _, x in rets for d in x}
+        if len(ds) == 1 and ds != {0} and p not in F1_EXCEPT and _by_ref(b) and (npush == 0 or npop == 0) and not eff:
+            helpers[p] = next(iter(ds))
+    bad = set()
+    for p, (b, npush, npop, eff, din, rets) in info.items():
+        if p in helpers:
+            continue
+        want = F1_EXCEPT.get(p, 0)
+        if any(ds != {want} for _bi, ds in rets):
+            bad.add(p)
+    for p, (b, npush, npop, eff, din, rets) in info.items():
+        want = helpers.get(p, F1_EXCEPT.get(p, 0))
+        r.inst(p, {"fn": p, "frame_pushes": npush, "frame_pops": npop, "callees_with_frame_effect": sorted(set(eff)),
+                   "depth_at_return": sorted({d for _, ds in rets for d in ds}), "expected": want, "frame_helper": p in helpers})
+        if p in helpers:
+            callers = [q for q, inf in info.items() if p in inf[3]]
+            if not callers or any(q in bad for q in callers):
+                r.bad(p, "frame balance", relfile(b.file), b.line,
+                      "the method returns with frame depth %+d and %s: a frame is leaked (its variables are never dropped) or a foreign frame is popped"
+                      % (helpers[p], "caller %s does not compensate" % sorted(q for q in callers if q in bad)[0] if callers else "has no caller that compensates"))
+            continue
+        if p in bad:
+            ds = sorted({d for _, x in rets for d in x})
+            r.bad(p, "frame balance", relfile(b.file), b.line,
+                  "on some path the method returns with frame depth %s (expected %d)%s: a frame is leaked (its variables are never dropped) or a foreign frame is popped"
+                  % (ds, want, (" (callees with a frame effect: %s)" % ", ".join(sorted(set(hir.last(e) for e in eff)))) if eff else ""))
         # never pop below entry depth
         if any(d < 0 for ds in din.values() for d in ds):
-            r.bad(b.path, "frame underflow", relfile(b.file), b.line, "a frame is popped that this method did not push")
+            r.bad(p, "frame underflow", relfile(b.file), b.line, "a frame is popped that this method did not push")
     return r
 
 
@@ -151,7 +269,7 @@ def rule_f3(F):
         if not nbs:
             continue
         defs = mir.Defs(b)
-        din, _ = depth_analysis(b)
+        din, _ = depth_analysis(b, frame_summaries(F))
         after = set()
         for nb in nbs:
             after |= (mir.reachable_from(b, nb) - {nb})
